@@ -72,17 +72,36 @@ def check_one(s: str) -> t.List[t.Tuple[str, str]]:
     try:
         txt = str(r)
         r2 = L.LDAPFilter.from_string(txt)
-        same = r2 == r
-    except RecursionError:
-        # the oracle's own str()/== recursion on a tree nested hundreds deep: not the parser's totality
-        return out + [("__skipped_deep_compare__", "")]
     except BaseException as e:  # noqa: BLE001
         if not out:
-            out.append((f"own-text-reparse-raises:{type(e).__name__}", f"{s!r} accepted, but its own text form does not parse: {type(e).__name__}: {e}"))
+            deep = ":deep-nesting" if isinstance(e, RecursionError) else ""
+            out.append((f"own-text-reparse-raises:{type(e).__name__}{deep}", f"{s[:80]!r} accepted, but its own text form does not parse: {type(e).__name__}: {str(e)[:100]}"))
         return out
+    same = same_filter(r, r2)
     if not same:
         out.append(("own-text-reparse-differs", f"{s!r} -> {A.src(r)[:120]} -> {txt!r} -> {A.src(r2)[:120]}"))
     return out
+
+
+def same_filter(a: t.Any, b: t.Any) -> bool:
+    """Field-by-field equality of two filter trees with an explicit stack (the generated ``==`` recurses per level and gives
+    up on trees nested a few hundred deep, which from_string accepts)."""
+    import dataclasses
+
+    todo = [(a, b)]
+    while todo:
+        x, y = todo.pop()
+        if type(x) is not type(y):
+            return False
+        if dataclasses.is_dataclass(x) and not isinstance(x, type):
+            todo += [(getattr(x, f.name), getattr(y, f.name)) for f in dataclasses.fields(x) if f.compare]
+        elif isinstance(x, (list, tuple)):
+            if len(x) != len(y):
+                return False
+            todo += list(zip(x, y))
+        elif x != y:
+            return False
+    return True
 
 
 def edits(s: str) -> t.Iterator[str]:
@@ -103,9 +122,6 @@ def _rec(loc: evid.Local, s: str, gen: t.Any = None) -> None:
     loc.add("states")
     loc.add("transitions")
     for k, w in check_one(s):
-        if k == "__skipped_deep_compare__":
-            loc.add("deep_results_not_compared")
-            continue
         loc.violation(k, w, {"text": s} if (len(s) < 400 or gen is None or "huge" in gen) else {"gen": gen})
 
 
